@@ -56,6 +56,8 @@ def solve_and_judge(ctx, case, accept, skip_if_polarity_lost=True, solve_kw=None
                 H.solve(sysobj, vtol=1e-2, itol=1e-2, maxiter=3)
             elif pre == "solve_other_args":  # same report, other ambient temperature / energy / tags
                 H.solve(sysobj, ta=kw.get("ta", 25.0) + 41.5, energy=not kw.get("energy", False), tags={"pre": 1})
+            elif pre == "sibling_system":
+                _sibling(sysobj, spec, case.get("hseed", 0))
             elif pre == "phases":
                 H.call(sysobj.phases)
             elif pre == "save":
@@ -93,9 +95,53 @@ def random_call_context(rng):
         kw["quiet"] = False
     if rng.random() < 0.2:
         kw["phase"] = "<some>"
-    pre = [rng.choice(["solve", "solve_phase", "rail_rep", "params", "solve_loose", "solve_other_args", "solve_other_args", "phases", "save"])
+    pre = [rng.choice(["solve", "solve_phase", "rail_rep", "params", "solve_loose", "solve_other_args", "solve_other_args", "phases", "save",
+                       "sibling_system"])
            for _ in range(rng.choice([0, 0, 1, 2]))]
     return {"kw": kw, "pre": pre, "phase_pick": rng.randrange(8), "history": rng.choice(HISTORIES), "hseed": rng.randrange(1 << 30)}
+
+
+def _sibling(sysobj, spec, seed):
+    """A second System is assembled from the VERY SAME component objects (a user re-using their part definitions),
+    configured with other phase durations and other per-component phase configurations, and solved.  Whatever a
+    component object or a class remembers from that must not leak into the system under test."""
+    import copy
+    import random
+
+    from .. import loader
+
+    ns = loader.load()
+    rng = random.Random(seed ^ 0x51B)
+    objs = {sysobj._g[i]._params["name"]: sysobj._g[i] for i in sysobj._g.node_indices()}
+    comps = spec["comps"]
+    if any(c["name"] not in objs for c in comps):
+        return
+    first = comps[0]
+    st, sib = H.call(ns.System, "sibling", objs[first["name"]], group=first.get("group", ""), rail=first.get("rail", ""))
+    if st != "ok":
+        return
+    for c in comps[1:]:
+        if c["kind"] == "Source" and not c.get("parents"):
+            st, _ = H.call(sib.add_source, objs[c["name"]], group=c.get("group", ""), rail=c.get("rail", ""))
+        else:
+            st, _ = H.call(sib.add_comp, S.parent_ref(spec, c), comp=objs[c["name"]], group=c.get("group", ""), rail=c.get("rail", ""))
+        if st != "ok":
+            return
+    names = list((spec.get("phases") or {}).keys()) or ["run", "nap"]
+    H.call(sib.set_sys_phases, {p_: G.sig(rng.uniform(1.0, 500.0)) for p_ in names})
+    for c in comps:
+        k_ = c["kind"]
+        if k_ in ("RLoss", "VLoss", "Rectifier") or rng.random() < 0.4:
+            continue
+        if k_ in S.LOADS:
+            key = {"PLoad": "pwr", "ILoad": "ii", "RLoad": "rs"}[k_]
+            conf = {p_: G.sig(abs(c["args"][key]) * rng.choice([0.4, 1.7])) for p_ in names if rng.random() < 0.6}
+        else:
+            on = set(c["phase"]) if c.get("phase") else set(names)
+            conf = [p_ for p_ in names if p_ not in on] or [p_ for p_ in names if rng.random() < 0.5] or names[:1]
+        H.call(sib.set_comp_phases, c["name"], conf)
+    H.solve(sib, energy=True)
+    H.call(sib.rail_rep)
 
 
 def repo_tests_under_monitor(ctx, accept):
